@@ -1581,7 +1581,8 @@ pub fn probe_c12(ix: &Ix<'_>) -> bool {
                 if ix.out.plan.role.is_server() && cfg.max_receive_size != 0 && total > cfg.max_receive_size {
                     return true;
                 }
-                if v5 && cfg.max_receive != 0 && running.iter().filter(|r| r.2 > 0).count() >= cfg.max_receive as usize {
+                let rm5 = if ix.out.plan.role == crate::world::Role::S5 { cfg.hs_receive_max.unwrap_or(cfg.max_receive) } else { cfg.max_receive };
+                if v5 && rm5 != 0 && running.iter().filter(|r| r.2 > 0).count() >= rm5 as usize {
                     return true;
                 }
             }
@@ -1637,6 +1638,9 @@ pub fn check_c12(ix: &Ix<'_>, v: &mut Vec<Violation>) {
         _ => 0,
     };
     let size_limit: usize = if ix.out.plan.role.is_server() { cfg.max_receive_size } else { 0 };
+    // MQTT 5: the Receive Maximum in force is the advertised one - configured, or (server) what the handshake's
+    // CONNACK says for this session
+    let rm5: u16 = if ix.out.plan.role == crate::world::Role::S5 { cfg.hs_receive_max.unwrap_or(cfg.max_receive) } else { cfg.max_receive };
     let mut running: Vec<(usize, usize, u8)> = Vec::new(); // (gate, packet size, qos)
     let mut last_admitted = 0usize;
     let mut count_exceeded: Option<(usize, u64)> = None;
@@ -1661,7 +1665,7 @@ pub fn check_c12(ix: &Ix<'_>, v: &mut Vec<Violation>) {
                     viol(v, "C12", format!("C12/handler-bytes-exceeded/{role}"), format!("{total} packet bytes inside publish handlers, limit {size_limit} plus the last admitted packet of {last_admitted}"), e.seq);
                     return;
                 }
-                if v5 && cfg.max_receive != 0 && seen.qos > 0 {
+                if v5 && rm5 != 0 && seen.qos > 0 {
                     // ids certainly reserved: QoS 1/2 handlers still running, and QoS 2 exchanges whose
                     // PUBREL the peer has not sent yet
                     let q = running.iter().filter(|r| r.2 > 0).count();
@@ -1673,12 +1677,12 @@ pub fn check_c12(ix: &Ix<'_>, v: &mut Vec<Violation>) {
                                 && p.pid.is_some_and(|pid| !ix.sent.iter().any(|x| x.seq < e.seq && matches!(&x.pkt, Some(Pkt::PubRel(a)) if a.pid == pid)))
                         })
                         .count();
-                    if q + awaiting_rel > cfg.max_receive as usize {
+                    if q + awaiting_rel > rm5 as usize {
                         viol(
                             v,
                             "C12",
                             format!("C12/receive-maximum-not-enforced/{role}"),
-                            format!("a QoS {} publish reached its handler with {} QoS1/2 handlers running and {awaiting_rel} QoS2 exchanges awaiting PUBREL, advertised Receive Maximum {}", seen.qos, q - 1, cfg.max_receive),
+                            format!("a QoS {} publish reached its handler with {} QoS1/2 handlers running and {awaiting_rel} QoS2 exchanges awaiting PUBREL, advertised Receive Maximum {}", seen.qos, q - 1, rm5),
                             e.seq,
                         );
                         return;
@@ -1694,8 +1698,8 @@ pub fn check_c12(ix: &Ix<'_>, v: &mut Vec<Violation>) {
         return;
     }
     // (2) v5 Receive Maximum: a peer within the limit is never refused, one beyond it gets 0x93
-    if v5 && cfg.max_receive != 0 {
-        let rm = u32::from(cfg.max_receive);
+    if v5 && rm5 != 0 {
+        let rm = u32::from(rm5);
         let mut w = 0u32;
         let mut a = 0u32;
         let mut exceeded_at: Option<u64> = None;
@@ -2486,8 +2490,16 @@ pub fn check_c20(ix: &Ix<'_>, v: &mut Vec<Violation>) {
             }
         }
         "client-keepalive" => {
-            let ka = u64::from(out.plan.cfg.client_keepalive_s) * 1000;
-            let Some(t0) = session_ms else { return };
+            // (MQTT 5: a Server Keep Alive in the CONNACK replaces what the client asked for)
+            let imposed = if ix.ver == Ver::V5 { crate::refcodec::prop_u16(&out.plan.peer.connack_props, 19) } else { None };
+            let ka = u64::from(imposed.unwrap_or(out.plan.cfg.client_keepalive_s)) * 1000;
+            if ka == 0 {
+                return;
+            }
+            // (a client started through the topic router has no control service that would mark the start of
+            // the session: count from the delivery of the CONNACK)
+            let connack_ms = ix.sent.iter().find(|s| s.conn == conn && matches!(s.pkt, Some(Pkt::ConnAck(_)))).and_then(|s| s.delivered).map(t_of);
+            let Some(t0) = session_ms.or(connack_ms) else { return };
             let alive_until = stop_ms.or_else(|| ix.conn_done.iter().find(|c| c.1 == conn).map(|c| t_of(c.0))).unwrap_or(end_ms).min(end_ms);
             let mut pts: Vec<u64> = vec![t0];
             pts.extend(ix.eps.iter().filter(|e| e.conn == conn && matches!(e.pkt, Pkt::PingReq)).map(|e| t_of(e.seq)));
@@ -2525,6 +2537,13 @@ pub fn check_c19(ix: &Ix<'_>, v: &mut Vec<Violation>) {
         let (n, val) = r.rsplit_once(':')?;
         Some((n.to_string(), val.parse().ok()?))
     });
+    if !out.plan.role.is_server() {
+        // client roles: only the enforcement clause applies (what the client announced in CONNECT)
+        let stop = ix.stops.iter().find(|s| s.1 == conn);
+        let ended = ix.conn_done.iter().any(|c| c.1 == conn);
+        c19_limit_clause(ix, v, limit, stop, ended);
+        return;
+    }
     let hs = ix.gates.iter().find(|g| g.conn == conn && g.kind == GateKind::Handshake);
     let accepted_at = hs.and_then(|g| match &g.exit {
         Some((xs, Outcome::Ok)) => Some(*xs),
@@ -2629,7 +2648,14 @@ pub fn check_c19(ix: &Ix<'_>, v: &mut Vec<Violation>) {
             }
         }
     }
-    // (5) enforcement at exactly the negotiated value: the probe at the limit is handled, the one beyond is not
+    c19_limit_clause(ix, v, limit, stop, ended);
+}
+
+/// (5) enforcement at exactly the negotiated value: the probe at the limit is handled, the one beyond is not
+fn c19_limit_clause(ix: &Ix<'_>, v: &mut Vec<Violation>, limit: Option<(String, u32)>, stop: Option<&(u64, usize, StopClass)>, ended: bool) {
+    let role = ix.role();
+    let out = ix.out;
+    let conn = 0usize;
     if let Some((name, val)) = limit {
         let probes: Vec<&Sent> = ix
             .sent
@@ -2830,7 +2856,7 @@ pub fn check_all(out: &RunOut) -> Vec<Violation> {
         "C20" => {
             check_c20(&ix, &mut v);
         }
-        "C19" => {
+        "C19" | "C19C" => {
             check_c19(&ix, &mut v);
         }
         "C19W" => {
